@@ -9,6 +9,7 @@ CONSTANTS
   NP = 1
   Limit = 1
   MaxAErr = 0
+  AAMs = {TRUE}
   MaxFail = 1
   MaxAbort = 0
 SPECIFICATION SpecDg
